@@ -2,6 +2,7 @@ mod core;
 mod hist;
 mod model;
 mod hostile;
+mod hostile2;
 mod net;
 mod ops2;
 mod plan;
